@@ -12,8 +12,11 @@ for sd in seeds:
     props = extra[0] if extra else [meta["property"]]
     subprocess.run(["git", "-C", "/repo", "apply", os.path.join(sd, "patch.diff")], check=True)
     res = {}
+    saved = {}
     try:
         for p in props:
+            ev = os.path.join(VERIF, "evidence", p + ".json")
+            saved[ev] = open(ev, "rb").read() if os.path.exists(ev) else None
             t0 = time.time()
             r = subprocess.run([os.path.join(VERIF, "check"), p, tier], cwd=VERIF, stdout=subprocess.PIPE, stderr=subprocess.STDOUT)
             out = r.stdout.decode("utf-8", "replace")
@@ -22,7 +25,13 @@ for sd in seeds:
             print(os.path.basename(sd), p, "exit", r.returncode, "%.1fs" % (time.time() - t0), (viol[1][:200] if len(viol) > 1 else out[-300:].strip()))
     finally:
         subprocess.run(["git", "-C", "/repo", "checkout", "--", "."], check=True)
+        # the evidence files must describe the unchanged tree: put back what was there before the seeded run
+        for ev, data in saved.items():
+            if data is None:
+                if os.path.exists(ev):
+                    os.remove(ev)
+            else:
+                open(ev, "wb").write(data)
     meta.setdefault("checked_with", {})[tier] = res
     meta["detected"] = any(v["exit"] == 1 for t in meta["checked_with"].values() for v in t.values())
     json.dump(meta, open(os.path.join(sd, "meta.json"), "w"), indent=1)
-# restore evidence of the unchanged tree is the caller's job (re-run the checks)
